@@ -55,6 +55,14 @@ def node_weights_of(n, wk):
 
 def attr_matrix(A, directed, variant):
     W = link_attr(A, variant=variant)
+    if variant == 2:
+        # the second attribute is signed (e.g. correlations used as weights):
+        # negative on the links whose end points have an odd index sum
+        n = len(A)
+        for i in range(n):
+            for j in range(n):
+                if (i + j) % 2:
+                    W[i, j] = -W[i, j]
     if directed:
         n = len(A)
         for i in range(n):
